@@ -299,6 +299,22 @@ def p_ms(fig, kind, info):
             return "line %d marker size %r, expected %s" % (i, l.get_markersize(), want[i % 4])
 
 
+def p_ms_map(fig, kind, info):
+    """on a map each panel (one per input) draws its stations with that input's marker size: scatter area = size squared"""
+    want = [4.0, 9.0, 6.0, 5.0]
+    seen = 0
+    for i, ax in enumerate(main_axes(fig, kind)):
+        for c in ax.collections:
+            if c.get_array() is None:
+                continue
+            seen += 1
+            sizes = [float(x) for x in c.get_sizes()]
+            if not sizes or any(abs(x - want[i % 4] ** 2) > 1e-6 for x in sizes):
+                return "panel %d: marker areas %s, expected %s (marker size %s)" % (i, sizes[:3], want[i % 4] ** 2, want[i % 4])
+    if not seen:
+        return "no coloured scatter found"
+
+
 def p_labfs(fig, kind, info):
     for ax in main_axes(fig, kind):
         for lab in (ax.xaxis.label, ax.yaxis.label):
@@ -535,6 +551,7 @@ OPTIONS = {
     "lw": (["-lw", "3,1"], ["std", "std5", "tsens", "igncontrib"], p_lw, None),
     "ma": (["-ma", "x,s,^"], ["std", "std5", "loc", "igncontrib"], p_ma, None),
     "ms": (["-ms", "4,9,6,5"], ["std", "std5", "loc", "igncontrib"], p_ms, None),
+    "ms-map": (["-ms", "4,9,6,5"], ["map"], p_ms_map, None),
     "labfs": (["-labfs", "11"], ["std", "loc", "pithist", "igncontrib", "against"], p_labfs, None),
     "tickfs": (["-tickfs", "9"], ["std", "loc", "pithist", "igncontrib", "against"], p_tickfs, None),
     "titlefs": (["-title", "My_title_1", "-titlefs", "23"], ["std", "loc", "pithist"], p_titlefs, "title"),
